@@ -145,6 +145,17 @@ def mtfOne (s : Slide) (c : UInt8) : Option (UInt8 × Slide) :=
                 | none => none
                 | some m3 => some (b, ⟨m3, row2⟩)
 
+/-- `mtf_one` applied to a sequence of indices: returned bytes, final state. -/
+def mtfMany : Slide → List UInt8 → Option (List UInt8 × Slide)
+  | s, [] => some ([], s)
+  | s, c :: cs =>
+    match mtfOne s c with
+    | none => none
+    | some (b, s') =>
+      match mtfMany s' cs with
+      | none => none
+      | some (bs, s'') => some (b :: bs, s'')
+
 /-- The rows as set up by `retrieve()`:
 `imtf_row[i] = imtf_slide + CMAP_BASE + i * ROW_WIDTH`. -/
 def initRows : List Nat := (List.range NUM_ROWS).map (fun i => CMAP_BASE + i * ROW_WIDTH)
